@@ -26,11 +26,11 @@ LABEL_FLOORS = {'order2': 0.3, 'order1': 0.3, 'exact_oracle_used': 0.5}
 def plan(tier):
     if tier == 'quick':
         return [{'n': 60} for _ in range(8)]
-    units = [{'n': 30, 'order': 1, 'biort': b, 'colour': c} for b in scatu.BIORTS1 for c in (False, True)]
-    units += [{'n': 20, 'order': 2, 'biort': b, 'qshift': q, 'colour': c}
+    units = [{'n': 200, 'order': 1, 'biort': b, 'colour': c} for b in scatu.BIORTS1 for c in (False, True)]
+    units += [{'n': 120, 'order': 2, 'biort': b, 'qshift': q, 'colour': c}
               for b, q in [(b, q) for b in ['near_sym_a', 'near_sym_b', 'antonini', 'legall'] for q in scatu.QSHIFTS2] +
               [('near_sym_b_bp', 'qshift_b_bp')] for c in (False, True)]
-    units += [{'n': 300} for _ in range(16)]
+    units += [{'n': 2500} for _ in range(16)]
     return units
 
 
